@@ -11,7 +11,7 @@ base = "for m in $(cat /w/out/gomods.txt); do MF=$(cd /repo/$m && . /w/out/goenv
 man = dict(
     version=1,
     setup_cmd="./setup.sh",
-    hooks=dict(guard="verif", enable="go test -tags verif (the checks always pass -tags verif; no hook call sites are needed so far: the harness is injected with go test -overlay and changes no repository file)",
+    hooks=dict(guard="verif", enable="go test -tags verif (every check passes -tags verif). layer4/verif_on.go defines `VerifHook func(point string, obj any)`; 19 one-line call sites in layer4/listener.go and layer4/server.go report the synchronisation points of the listener wrapper and of the UDP server loop; with the tag off layer4/verif_off.go makes them empty inlinable calls. The harness itself is injected with go test -overlay and changes no repository file.",
                baseline_off_cmd=base, source_commits=hooks_commits, add_only=True),
     engines=[dict(name="lean4-l4", path="lean/", serves_properties=[i for i in ids if i in PROPS],
                   kind_free_text="Lean 4 models + theorems (lake project, core only), facts regenerated from /repo by extract/, line-protocol driver l4drv"),
